@@ -421,6 +421,10 @@ class Builder:
             elif k == 'idx':
                 a = vals[n['a']]
                 v = a[n['i'] % len(a)] if isinstance(a, list) and a else a
+                if isinstance(v, list) and not isinstance(v, ChannelList):
+                    # arithmetic on nested channel lists returns plain
+                    # inner lists; a user would wrap them again
+                    v = ChannelList(v)
             elif k == 'bin':
                 a, b = vals[n['a']], vals[n['b']]
                 if n['op'] == 'min':
